@@ -168,8 +168,35 @@ def lex(text, split_keywords=False, eof_closes_comment=False):
     return toks
 
 
+def _foreign_digit_outside_strings(text):
+    """a non-ASCII decimal digit anywhere outside string literals and comments (the implementation's \\d would take it)"""
+    i, n = 0, len(text)
+    while i < n:
+        c = text[i]
+        if c in "\"'":
+            j = text.find(c, i + 1)
+            k = text.find("\n", i + 1)
+            if j < 0 or (0 <= k < j):
+                i += 1
+                continue
+            i = j + 1
+        elif text.startswith("//", i):
+            j = text.find("\n", i)
+            i = n if j < 0 else j
+        elif text.startswith("/*", i):
+            j = text.find("*/", i + 2)
+            i = n if j < 0 else j + 2
+        else:
+            if not c.isascii() and unicodedata.category(c) == "Nd":
+                return True
+            i += 1
+    return False
+
+
 def classify(text):
     """-> "accept" | "reject" | "ambiguous" for a raw text"""
+    if _foreign_digit_outside_strings(text):
+        return "ambiguous"  # e.g. `weighted 0.<fullwidth 5>`: the number pattern is documented only by example
     try:
         t1 = lex(text)
         v1 = accepts([t for t, _ in t1])
@@ -222,3 +249,4 @@ def selftest(repo_programs_dir="/repo/tests/unit/test_programs"):
     assert classify("def e { /* /* x */ return 1 weighted 1 }") == "ambiguous"
     assert classify('def e { return 1 weighted 1 } /* open') == "ambiguous"
     assert classify('def e { return 1 weighted 1 /* open }') == "reject"
+    assert classify('def e { return 1 weighted 0.\uff15 }') == "ambiguous" and classify('def e { return "\uff15" weighted 1 }') == "accept"
